@@ -94,6 +94,10 @@ def generate(seed, tier):
                 if 'arr' not in c and r not in leaves_:
                     leaves_.append(r)
         fr.shuffle(leaves_)
+        if fr.chance(.4):
+            # names first: two different names (both may be undefined) in
+            # one formula, each behind its own interceptor
+            leaves_.sort(key=lambda x: x[0] != 'r')
         idx = Index(world)
         h, w = world['books'][0][0]
         free = [(0, 0, r, c) for r in range(h + 1) for c in range(w + 1)
